@@ -587,6 +587,10 @@ def run_program(acc, case):
     path = case["path"]
     status = dec(case["status"])
     headers = dec_headers(case["headers"])
+    if case.get("cl_reconciled"):
+        # the server owns Content-Length on the file_wrapper path (it may correct the declared
+        # value): the application's own length line is not demanded, everything else is
+        headers = [(k, v) for k, v in headers if not (isinstance(k, str) and ascii_lower(k) == "content-length")]
     wire = res.wire
     head, rest = split_wire(wire)
     viol = []
@@ -1240,6 +1244,26 @@ def fam_iterables(tier):
                                  {"fam": "iterables", "where": path, "cls": label, "pos": 0})
 
 
+def fam_fw_wrong_cl(tier):
+    """wsgi.file_wrapper with a declared Content-Length other than the file's size (the server
+    reconciles the length on that path): every other application header must survive, repeated
+    names included"""
+    idx = 0
+    progs = [p for p in special_programs() if p[0] in ("dup-case", "dup-cookie", "dup-identical", "many", "value-ws", "latin1")]
+    for label, status, headers in progs:
+        for cl in ("9", "2", "0"):
+            for pos in (0, len(headers)):
+                for path in ("initial", "exc_info-before-output"):
+                    for version in ("1.0", "1.1"):
+                        idx += 1
+                        hs = list(headers)
+                        hs.insert(pos, ("Content-Length" if idx % 2 else "content-length", cl))
+                        c = mk(status, hs, path, "file_wrapper", version, idx % 2 == 0, idx,
+                               {"fam": "fw-wrong-cl", "where": "special", "cls": label + ":cl" + cl, "pos": pos})
+                        c["cl_reconciled"] = True
+                        yield c
+
+
 def programs_optimized(tier):
     """what is run a second time under `python -O` (validation must not live in assert statements)"""
     yield from fam_nonstr(tier)
@@ -1251,6 +1275,7 @@ def programs_optimized(tier):
 
 
 def programs(tier, seed):
+    yield from fam_fw_wrong_cl(tier)
     yield from fam_iterables(tier)
     yield from fam_cl_value(tier)
     yield from fam_swallowed(tier)
